@@ -129,7 +129,8 @@ class C15(object):
     required_counters = ('accepted.judged', 'accepted.negative_valued', 'rejected.judged', 'untouched.judged',
                          'via_solve_equation', 'inner_loop_tight_tolerance.cases', 'near_cancelling_derived.cases', 'acceptance_window.cases', 'solver_reused_after_search_of_variant.cases',
                          'another_solvers_exclusion_list_extended_in_place.cases',
-                         'coarse_per_period_tolerance.cases')
+                         'coarse_per_period_tolerance.cases',
+                         'second_search_after_a_rejected_one.cases')
 
     def n_cases(self, tier):
         return 300 if tier == 'quick' else 20000
@@ -176,8 +177,10 @@ class C15(object):
             earlier = render(dv)
         return {'kind': 'search', 'dyn': d, 'text': render(d), 'T': T, 'loop_default_tolerance': loop_default,
                 'earlier_variant': earlier, 'other_solver_excludes': idx % 12 in (3, 9),
+                'retry_after_rejection': idx % 12 in (4, 10),
                 'coarse_step_tolerance': (not d.get('loop')) and rng.random() < 0.3,
-                'tol': 10 ** rng.uniform(-8, -2), 'reduction': rng.random() < 0.5, 'via_solve': via_solve}
+                'tol': 10 ** rng.uniform(-8, -2), 'reduction': rng.random() < 0.5,
+                'via_solve': via_solve or (idx % 12 == 4 and (d['exo'] is None or len(set(d['exo'])) == 1))}
 
     def run_case(self, case):
         from sfc_models.equation_solver import EquationSolver, NoEquilibriumError
@@ -234,6 +237,20 @@ class C15(object):
                                   'solver_maxtime': s.MaxTime, 'cap': s.MaxIterations, 'varlist': list(s.VariableList)})
         before = snap()
         outcome = 'accepted'
+        if case.get('retry_after_rejection'):
+            # a first search with a hopelessly short horizon is rejected; the caller catches that, allows more periods and asks
+            # again on the same solver (no re-parse)
+            s.ParameterInitialSteadyStateMaxTime = 2
+            try:
+                with contextlib.redirect_stdout(io.StringIO()):
+                    if case.get('via_solve'):
+                        s.ParameterSolveInitialSteadyState = True
+                        s.SolveEquation()
+                    else:
+                        s.CalculateInitialSteadyState()
+            except Exception:
+                rec.count('second_search_after_a_rejected_one.cases')
+            s.ParameterInitialSteadyStateMaxTime = case['T']
         try:
             with contextlib.redirect_stdout(io.StringIO()):
                 if case.get('via_solve'):
